@@ -1353,7 +1353,7 @@ def _parse_output_keys(result: dict, lit: LineIterator) -> dict:
 
     """
     should_be_required_keys = {"schema_name", "schema_version"}
-    output_keys = {"provenance", "properties", "success", "return_result"}
+    output_keys = {"properties", "success", "return_result"}
     for key in should_be_required_keys:
         if key not in result:
             warn(
